@@ -180,7 +180,7 @@ REGISTRY = {
                       {"module": "props.regions", "units": ["post_init", "meta"]}],
             "witness": "workers", "assumptions": WK_ASSUME},
     "C13": {"parts": [{"module": "props.workers", "units": ["worker_run", "worker_misc", "notify", "stream_saver", "joiner", "region_saver", "saver_init",
-                                                              "split_and_join", "tokenizer_init_read", "observers_misc", "structure"]},
+                                                              "split_and_join", "tokenizer_init_read", "observers_misc", "export", "structure"]},
                       {"module": "props.regions", "units": ["make_silence", "join", "check_iter_others"]},
                       {"module": "props.iofuncs", "units": ["region_save", "to_file", "guess_format"]},
                       # which saver / joiner exists for which options
@@ -201,7 +201,7 @@ REGISTRY = {
                 "flush contract (C04 at N = blocks read so far) gives the detections of the prefix",
                 "cmdline.main's interrupt handler is covered by C15's path contract (KeyboardInterrupt => stop_all => status 0)"]},
     "C15": {"parts": [{"module": "props.cmdline", "units": ["formatter", "option_table", "make_kwargs", "initialize_workers", "main"]},
-                      {"module": "props.workers", "units": ["print_worker", "worker_run", "tokenizer_run", "tokenizer_init_read", "observers_misc"]}],
+                      {"module": "props.workers", "units": ["print_worker", "worker_run", "tokenizer_run", "tokenizer_init_read", "observers_misc", "export"]}],
             "witness": "cli", "witness_also": [("workers", "C12")], "assumptions": [
                 "argparse semantics (add_argument / parse_args), str.format, str.replace/index and print are library models (assumed); "
                 "the option table is read from the literal add_argument calls in main()'s AST",
